@@ -79,7 +79,8 @@ def run_tlc(ctx, module, cfg, workers=8, heap=6, timeout=1200, extra=None, files
             shutil.copy(os.path.join(SPECS, f), d)
     for src, dst in (files or {}).items():
         shutil.copy(src, os.path.join(d, dst))
-    cmd = ["java", "-XX:+UseParallelGC", "-Xmx%dg" % heap, "-Xss512m", "-cp", JAR, "tlc2.TLC",
+    # (SANY unpacks the standard modules into java.io.tmpdir on every run: keep that inside the scratch directory)
+    cmd = ["java", "-XX:+UseParallelGC", "-Xmx%dg" % heap, "-Xss512m", "-Djava.io.tmpdir=" + d, "-cp", JAR, "tlc2.TLC",
            "-workers", str(workers), "-config", cfg, "-metadir", os.path.join(d, "meta")]
     if simulate:
         cmd += ["-simulate", simulate]
